@@ -713,7 +713,7 @@ def program(draw, cfg):
 # ------------------------------------------------------------------------------------------------ focused family: ways of leaving a loop
 
 @st.composite
-def break_loop_program(draw):
+def break_loop_program(draw, eof=False):
     """loop { <token>; n0 = [n0 + 1]; <break in one of several positions> } <tail>: the break is really taken after k iterations and
     more input follows in the same chunk. Returns (program, inputs)."""
     from . import ir as _ir
@@ -722,7 +722,8 @@ def break_loop_program(draw):
     cond = ("bin", draw(st.sampled_from([">=", "=="])), ("var", "n0"), ("num", k, "dec"))
     brk = ("break", draw(st.sampled_from([None, "lp0"])))
     where = draw(st.sampled_from(["if", "if-if", "if-if-trailing", "if-else", "case-clause", "case-clause-trailing", "if-if-else", "case-else-then-if",
-                                  "case-yield-then-if"]))
+                                  "case-yield-then-if", "if-at-start", "else-if-at-start"]
+                                 + (["if-at-start", "else-if-at-start"] * 4 + ["if", "if-if", "case-else-then-if"] if eof else [])))
     count = ("assign", "n0", ("bin", "+", ("var", "n0"), ("num", 1, "dec")))
     hook = ("hook", "h0")
     if where == "if":
@@ -737,6 +738,11 @@ def break_loop_program(draw):
     elif where == "if-if-else":
         inner = (("match", ("lit", tok, "str")), count,
                  ("if", ((("bin", ">=", ("var", "n0"), ("num", 0, "dec")), (("if", ((("bin", "<", ("var", "n0"), ("num", k, "dec")), (hook,)),), (brk,)),)),), None))
+    elif where == "if-at-start":
+        # the conditional break sits among the actions at the top of the loop body: on the way round it rides on a transition that consumes nothing
+        inner = (("if", ((cond, (brk,)),), None), ("match", ("lit", tok, "str")), count)
+    elif where == "else-if-at-start":
+        inner = (("case", False, ((((("lit", tok, "str"),), None, (count,))), (("else",), None, (("if", ((cond, (brk,)),), None), ("match", ("lit", b"bc", "str")))))),)
     elif where in ("case-else-then-if", "case-yield-then-if"):
         # one conditional break object behind a case whose arms end differently (consuming / falling through / resuming after a yield)
         count1 = ("assign", "n1", ("bin", "+", ("var", "n1"), ("num", 1, "dec")))
@@ -751,11 +757,17 @@ def break_loop_program(draw):
         inner = (("case", False, ((((("lit", tok, "str"),), None, (count,))), (((("lit", b";", "str"),), None, (brk,))))),)
     else:
         inner = (("case", False, ((((("lit", tok, "str"),), None, (count,))), (((("lit", b";", "str"),), None, (brk,))))), hook)
-    tail_kind = draw(st.sampled_from(["literal", "same-token", "optional", "append"]))
+    tail_kind = draw(st.sampled_from(["literal", "same-token", "optional", "append", "nothing", "optional-only"] + (["nothing", "optional-only"] * 2 if eof else [])))
+    if where == "else-if-at-start" and tail_kind == "same-token":
+        tail_kind = "literal"
     if tail_kind == "literal":
         tail = (("match", ("lit", b"end", "str")), hook)
     elif tail_kind == "same-token":
         tail = (("match", ("lit", tok + b"!", "str")),)
+    elif tail_kind == "nothing":
+        tail = ()
+    elif tail_kind == "optional-only":
+        tail = (("optional", (("match", ("lit", b"e", "str")), hook)),)
     elif tail_kind == "optional":
         tail = (("optional", (("match", ("lit", b"e", "str")), hook)), ("match", ("lit", b".", "str")))
     else:
@@ -769,13 +781,18 @@ def break_loop_program(draw):
     if where.endswith("then-if"):
         one_a = (b"b" + tok) if where == "case-else-then-if" else tok
         for head in (one_a * k, b"b" * k, one_a * (k - 1) + b"b" * k, b"b" * (k - 1) + one_a * k, one_a + b"b" * k):
-            for t in (b"end", b"e.", b".", tok + b"!"):
+            for t in (b"end", b"e.", b".", tok + b"!", b""):
                 datas.append(head + t)
+        if eof:
+            prog.argv.append("-feof-support")
         return prog, datas
     for extra in (0, 1):
         head = tok * (k + extra) + sep
-        for t in (b"end", tok + b"!", b"e.", b".", b"abc."):
+        for t in (b"end", tok + b"!", b"e.", b".", b"abc.", b""):
             datas.append(head + t)
+    if eof:
+        prog.argv.append("-feof-support")
+        datas = [d for d in datas if len(d) <= len(tok) * (k + 1) + 1][:8] + datas
     return prog, datas
 
 
